@@ -13,4 +13,4 @@ Extraction "../ocaml/cmd_model.ml"
   VoiceTable.voices
   DocTable.doc_cc DocTable.doc_alias_groups DocTable.doc_command_names DocTable.doc_values
   DocTable.doc_voices DocTable.doc_drumsets DocTable.doc_drumnotes DocTable.doc_rhythm
-  GmSpec.gm_programs GmSpec.gm_percussion GmSpec.DEFAULT_DEVICE.
+  GmSpec.gm_programs GmSpec.gm_percussion GmSpec.DEFAULT_DEVICE GmSpec.roland_ok GmSpec.roland_checksum.
